@@ -579,7 +579,7 @@ class ProgGen(StmtGen):
         self.features.add("dispatch")
         return sig
 
-    STAR_FORMS = [("{a}, *{b}", 1, "ab"), ("*{a}, {b}", 1, "ba"), ("{a}, *{b}, {c}", 2, "abc"), ("{a}, *{b}, {c}, {d}", 3, "abcd"), ("*{a}, {b}, {c}, {d}", 3, "abcd")]
+    STAR_FORMS = [("{a}, *{b}", 1, "ab"), ("*{a}, {b}", 1, "ba"), ("{a}, *{b}, {c}", 2, "abc"), ("{a}, *{b}, {c}, {d}", 3, "abcd"), ("*{a}, {b}, {c}, {d}", 3, "abcd"), ("{a}, {b}", 2, "ab"), ("{a}, {b}, {c}", 3, "abc")]
 
     def gen_starunpack(self, full: bool) -> Sig:
         """Starred unpacking as assignment target and as for-loop target, from list / tuple / str / generator /
